@@ -95,7 +95,9 @@ def World.onTFrame (w : World) (toks : List String) : World :=
     else hexBytes a
   let model : String := match readFrame raw with
     | none => "none"
-    | some p => s!"from=2 len={p.length} head={showHex (p.take 16)}"
+    | some p =>
+      let sum := (p.zipIdx.foldl (fun acc (b, k) => (acc + (k % 251 + 1) * b) % 1000000007) 0)
+      s!"from=2 len={p.length} head={showHex (p.take 16)} tail={showHex (p.drop (p.length - min p.length 16))} sum={sum}"
   let res := toks.getD 1 ""
   let impl := " ".intercalate (toks.drop 2)
   let w := if res != "ok" then w.fail "C12" "frame" s!"direct-channel stream handler panicked on frame {a}" else w
